@@ -33,6 +33,7 @@ type HarnessCfg struct {
 	InstrLimit   int              `json:"instr_limit,omitempty"`
 	MaxPaths     int              `json:"max_paths,omitempty"`
 	Preempt      int              `json:"preempt,omitempty"`
+	PreemptLocks bool             `json:"preempt_locks,omitempty"`
 	What         string           `json:"what,omitempty"`
 }
 
@@ -232,7 +233,7 @@ func cmdCheck(args []string) int {
 			params = h.Thorough
 		}
 		opts := ExploreOpts{Workers: *workers, MaxPaths: h.MaxPaths, MaxViolations: 4, InstrLimit: h.InstrLimit,
-			Tier: tier, Seed: seed, Params: params, SampleEvery: 1, MaxSamples: 12, Deadline: deadline, Preempt: h.Preempt}
+			Tier: tier, Seed: seed, Params: params, SampleEvery: 1, MaxSamples: 12, Deadline: deadline, Preempt: h.Preempt, PreemptLocks: h.PreemptLocks}
 		res := eng.Explore(fn, opts)
 		results = append(results, hres{h, res})
 		fmt.Fprintf(os.Stderr, "%s: paths=%d completed=%d vacuous=%d inconclusive=%d violations=%d queries=%d solver=%v wall=%v\n",
@@ -616,6 +617,11 @@ func writeReplay(dir string, v *Violation, tier int, h HarnessCfg, sample bool) 
 	}
 	out := map[string]any{"harness": v.Harness, "msg": v.Msg, "kind": v.Kind, "inputs": v.Inputs, "observe": v.Observe,
 		"tier": tier, "params": params, "pos": v.Pos, "pkg": h.Pkg}
+	if h.Preempt > 0 && !sample {
+		// the counterexample includes preemptions the native run cannot force:
+		// the native replay repeats the run (real parallelism) until it shows
+		out["stress"] = 20000
+	}
 	b, _ := json.MarshalIndent(out, "", " ")
 	sum := sha256.Sum256(b)
 	name := fmt.Sprintf("%s-%x.json", v.Harness, sum[:6])
